@@ -387,7 +387,8 @@ def validate_trace(trace_path, name, module="ConcTrace"):
         cfg_text = cfg_text.replace("MaxCells = 16", "MaxCells = %d" % max(16, most + 2))
     open(cfgp, "w").write(cfg_text)
     env = dict(os.environ); env["TRACE"] = trace_path
-    cmd = ["java", "-XX:+UseParallelGC", "-Xss1g", "-Xmx6g", "-cp", TLC_CP, "tlc2.TLC", "-workers", "1", "-metadir", os.path.join(d, "states"),
+    dfs = ["-Dtlc2.tool.queue.IStateQueue=StateDeque"] if module in ("ConcTrace", "ChainTrace") else []
+    cmd = ["java", "-XX:+UseParallelGC", "-Xss1g", "-Xmx6g"] + dfs + ["-cp", TLC_CP, "tlc2.TLC", "-workers", "1", "-metadir", os.path.join(d, "states"),
            "-cleanup", "-noGenerateSpecTE", "-config", cfgp, os.path.join(vf.TLA, module + ".tla")]
     try:
         p = subprocess.run(cmd, cwd=vf.TLA, env=env, capture_output=True, text=True, timeout=1500)
